@@ -174,3 +174,7 @@ fn c11_arc_dependence_classes() {
     oblige!("C11.dep.inc_sees_last_inspect", act != Action::Inspect || hit(&st, Action::RefInc));
     reach!("c11_arc_dependence_classes");
 }
+
+pub(crate) fn count(s: &State) -> usize {
+    s.ref_cnt
+}
